@@ -15,7 +15,8 @@ import (
 )
 
 // C12: the same operation history is applied to base.BufferReadWriter, memory.File and a real
-// os.File (kind 0), or to store.NewBufferFileReader(init) and a read-only os.File (kind 1).
+// os.File (kind 0), to store.NewBufferFileReader(init) and a read-only os.File (kind 1), or to two
+// handles on one memory.File blob (Create + Open) and one os.File opened twice (kind 2).
 func init() { hlib.Register("C12", c12) }
 
 type c12op struct {
@@ -24,6 +25,7 @@ type c12op struct {
 	n   int
 	off int64
 	w   int // 0 start 1 current 2 end 3 invalid (passed as whence 7)
+	h   int // handle (0 or 1), used by the two-handle cases only
 }
 
 var c12kinds = [...]string{"Write", "WriteAt", "Read", "ReadAt", "Seek", "Size"}
@@ -126,6 +128,15 @@ func c12runOn(f c12file, ops []c12op) []c12out {
 	return outs
 }
 
+// each operation goes to the handle it names
+func c12runOn2(fs [2]c12file, ops []c12op) []c12out {
+	outs := make([]c12out, len(ops))
+	for i, o := range ops {
+		outs[i] = c12apply(fs[o.h], o)
+	}
+	return outs
+}
+
 func c12outs(outs []c12out) string {
 	s := make([]string, len(outs))
 	for i, o := range outs {
@@ -161,6 +172,11 @@ func (e *c12env) osFile(init []byte, readonly bool) c12os {
 
 // emit runs one case on the implementations and writes it out.
 func (e *c12env) emit(kind string, reader bool, cap int, init []byte, ops []c12op) {
+	e.emitK(kind, map[bool]int{false: 0, true: 1}[reader], cap, init, ops)
+}
+
+func (e *c12env) emitK(kind string, ck int, cap int, init []byte, ops []c12op) {
+	reader := ck == 1
 	e.count++
 	sops := make([]string, len(ops))
 	var hist []string
@@ -169,7 +185,28 @@ func (e *c12env) emit(kind string, reader bool, cap int, init []byte, ops []c12o
 		hist = append(hist, c12kinds[o.k])
 	}
 	var bufO, memO, rdrO, osO []c12out
-	if reader {
+	if ck == 2 {
+		of := e.osFile(nil, false)
+		of1, err := os.OpenFile(of.Name(), os.O_RDWR, 0o644)
+		if err != nil {
+			panic(err)
+		}
+		osO = c12runOn2([2]c12file{of, c12os{of1}}, ops)
+		of.Close()
+		of1.Close()
+		os.Remove(of.Name())
+		key := fmt.Sprintf("k%d", e.count)
+		mf0, err := e.ms.Create(key, uint64(cap))
+		if err != nil {
+			panic(err)
+		}
+		mf1, err := e.ms.Open(key)
+		if err != nil {
+			panic(err)
+		}
+		memO = c12runOn2([2]c12file{mf0, mf1}, ops)
+		e.ms.Delete(key)
+	} else if reader {
 		of := e.osFile(init, true)
 		osO = c12runOn(of, ops)
 		of.Close()
@@ -193,7 +230,9 @@ func (e *c12env) emit(kind string, reader bool, cap int, init []byte, ops []c12o
 	// bytes from a non-zero position)
 	grew, gotBytes, readAway := false, false, false
 	var prevSize, prevOff int64
+	used := [2]bool{}
 	for i, o := range osO {
+		used[ops[i].h] = true
 		if (ops[i].k == 0 || ops[i].k == 1) && o.size > prevSize {
 			grew = true
 		}
@@ -206,10 +245,23 @@ func (e *c12env) emit(kind string, reader bool, cap int, init []byte, ops []c12o
 		prevSize, prevOff = o.size, o.off
 	}
 	nt := grew && gotBytes
-	k := 0
+	k := ck
 	if reader {
 		nt = readAway
-		k = 1
+	}
+	hs := "[]"
+	if ck == 2 {
+		nt = nt && used[0] && used[1]
+		h := make([]string, len(ops))
+		for i, o := range ops {
+			h[i] = hlib.B(o.h == 1)
+			sops[i] = fmt.Sprintf("h%d.%s", o.h, sops[i])
+		}
+		hs = hlib.List(h)
+	}
+	cops := make([]string, len(ops))
+	for i, o := range ops {
+		cops[i] = o.coq()
 	}
 	// an in-memory observation list identical to the os.File's is written as None (smaller files)
 	sos := c12outs(osO)
@@ -222,8 +274,8 @@ func (e *c12env) emit(kind string, reader bool, cap int, init []byte, ops []c12o
 		}
 		return "None"
 	}
-	coq := fmt.Sprintf("mkcase %d %d %s %s %s %s %s %s", k, cap, hlib.Bytes(init), hlib.List(sops),
-		opt(bufO, !reader), opt(memO, !reader), opt(rdrO, reader), sos)
+	coq := fmt.Sprintf("mkcase %d %d %s %s %s %s %s %s %s", k, cap, hlib.Bytes(init), hs, hlib.List(cops),
+		opt(bufO, ck == 0), opt(memO, ck == 0 || ck == 2), opt(rdrO, reader), sos)
 	var tags []string
 	for _, o := range ops {
 		if (o.k == 0 || o.k == 1) && len(o.p) == 0 {
@@ -233,13 +285,25 @@ func (e *c12env) emit(kind string, reader bool, cap int, init []byte, ops []c12o
 	}
 	e.ctx.Emit(hlib.Case{Coq: coq, NT: nt, Kind: kind, Hist: hist, Tags: tags,
 		Key:    fmt.Sprintf("%d|%d|%v|%s", k, cap, init, strings.Join(sops, ";")),
-		Sample: map[string]interface{}{"reader": reader, "cap": cap, "init": init, "ops": sops, "os_file": c12outs(osO)}})
+		Sample: map[string]interface{}{"kind": [...]string{"bufrw+memfile", "reader", "memfile-two-handles"}[ck], "cap": cap, "init": init, "ops": sops, "os_file": c12outs(osO)}})
 }
 
 // ---- shadow of the file semantics, used only to steer the generator ----
-type c12shadow struct{ size, pos int64 }
+type c12shadow struct {
+	size, pos int64
+	other    int64 // position of the handle that is not current
+	cur      int
+}
+
+// use makes handle h the current one
+func (s *c12shadow) use(h int) {
+	if h != s.cur {
+		s.pos, s.other, s.cur = s.other, s.pos, h
+	}
+}
 
 func (s *c12shadow) step(o c12op) {
+	s.use(o.h)
 	switch o.k {
 	case 0:
 		if len(o.p) > 0 {
@@ -355,7 +419,7 @@ func c12bad(r *hlib.Rng, cap int, sh *c12shadow) c12op {
 	return c12op{k: 4, off: int64(1 + r.Intn(6)), w: 2} // beyond the extent, from the end
 }
 
-func c12genRW(r *hlib.Rng, cap, n int, malformed bool) []c12op {
+func c12genRW(r *hlib.Rng, cap, n int, malformed bool, handles int) []c12op {
 	sh := &c12shadow{}
 	badAt := -1
 	if malformed {
@@ -364,6 +428,11 @@ func c12genRW(r *hlib.Rng, cap, n int, malformed bool) []c12op {
 	var ops []c12op
 	for j := 0; j < n; j++ {
 		var o c12op
+		h := 0
+		if handles == 2 && r.Chance(45) {
+			h = 1
+		}
+		sh.use(h)
 		if j == badAt {
 			o = c12bad(r, cap, sh)
 		} else {
@@ -382,11 +451,15 @@ func c12genRW(r *hlib.Rng, cap, n int, malformed bool) []c12op {
 				o = c12op{k: 5}
 			}
 		}
+		o.h = h
 		sh.step(o)
 		ops = append(ops, o)
 	}
 	// drain: the whole content and the final position/size become observable
 	ops = append(ops, c12op{k: 3, n: int(sh.size) + 3, off: 0})
+	if handles == 2 {
+		ops = append(ops, c12op{k: 5, h: 1})
+	}
 	return ops
 }
 
@@ -459,6 +532,12 @@ func c12(ctx *hlib.Ctx) {
 	e.emit("seed-reader", true, 6, []byte{1, 2, 3, 4, 5, 6}, []c12op{R(2), RA(3, 4), SK(-1, 2), R(5), R(1), SK(0, 0), R(0), R(9), SZ, RA(2, 6), RA(2, -1), SK(2, 1), SK(-3, 1)})
 	e.emit("seed-reader", true, 0, nil, []c12op{R(1), RA(1, 0), SK(0, 2), SZ, SK(3, 0), R(1), SK(-1, 0), SK(0, 3)})
 
+	on1 := func(o c12op) c12op { o.h = 1; return o }
+	// handle 1 grows the blob beyond its capacity; handle 0 must see the bytes and keep its position
+	e.emitK("seed-two-handles", 2, 2, nil, []c12op{W(1, 2, 3), on1(R(2)), on1(W(9)), on1(WA(8, 7)), R(1), SK(0, 0), R(12), on1(SK(0, 2)), on1(W(5, 5)), RA(20, 0), on1(SZ)})
+	e.emitK("seed-two-handles", 2, 0, nil, []c12op{on1(WA(3, 4)), R(2), on1(R(9)), W(8), on1(SK(-1, 2)), on1(R(3)), on1(WA(9)), SZ, RA(9, 0)})
+	e.emitK("seed-two-handles", 2, 8, nil, []c12op{W(1, 2), on1(SK(2, 0)), on1(W(3)), SK(5, 0), on1(SK(1, 2)), W(4), on1(RA(9, 0))})
+
 	maxOps := 25
 	if ctx.Tier == "thorough" {
 		maxOps = 40
@@ -506,6 +585,10 @@ func c12(ctx *hlib.Ctx) {
 		if malformed {
 			kind = "malformed-rw"
 		}
-		e.emit(kind, false, cap, nil, c12genRW(rr, cap, n, malformed))
+		if rr.Chance(17) {
+			e.emitK(strings.Replace(kind, "-rw", "-two-handles", 1), 2, cap, nil, c12genRW(rr, cap, n, malformed, 2))
+			continue
+		}
+		e.emit(kind, false, cap, nil, c12genRW(rr, cap, n, malformed, 1))
 	}
 }
